@@ -49,12 +49,17 @@ Proof.
   cbn [length]. rewrite app_length. cbn [length]. unfold max_raw in *. lia.
 Qed.
 
+Lemma enc_eid_some e bs : enc_eid e = Some bs -> eid_valid e = true /\ bs = enc_eid_body e.
+Proof.
+  unfold enc_eid. destruct (eid_valid e); [|discriminate]. intros H. split; [reflexivity|]. congruence.
+Qed.
+
 Theorem dec_eid_enc e bs r :
   eid_wf e = true -> enc_eid e = Some bs -> dec_eid (bs ++ r) = Ok e r.
 Proof.
-  intros Hwf Henc. unfold enc_eid in Henc. destruct (eid_valid e) eqn:Hv; [|discriminate].
-  injection Henc as <-. unfold dec_eid. destruct e as [|node demux|n s].
-  - rewrite <- !app_assoc. rewrite read_arr_enc by reflexivity. cbn [bind]. cbn [N.eqb negb].
+  intros Hwf Henc. apply enc_eid_some in Henc. destruct Henc as [Hv ->].
+  unfold dec_eid. destruct e as [|node demux|n s]; cbn [enc_eid_body].
+  - rewrite <- !app_assoc. rewrite read_arr_enc by reflexivity. cbn [bind].
     change (negb (2 =? 2)) with false. cbv iota.
     rewrite read_uint_enc by reflexivity. cbn [bind]. change (1 =? 1) with true. cbv iota.
     unfold enc_uint. rewrite read_head_head; [|left; reflexivity|lia]. cbn [bind]. reflexivity.
@@ -75,9 +80,5 @@ Proof.
     rewrite read_uint_enc by exact Hn. cbn [bind]. rewrite read_uint_enc by exact Hs. cbn [bind]. reflexivity.
 Qed.
 
-(* encodings are never empty and start with the array head 0x82 *)
-Lemma enc_eid_nonempty e bs : enc_eid e = Some bs -> (1 <= length bs)%nat.
-Proof.
-  unfold enc_eid. destruct (eid_valid e); [|discriminate]. intros H. injection H as <-.
-  destruct e; cbn; lia.
-Qed.
+Lemma enc_eid_body_nonempty e : (1 <= length (enc_eid_body e))%nat.
+Proof. destruct e; cbn [enc_eid_body]; rewrite !app_length; cbn; lia. Qed.
